@@ -12,6 +12,8 @@ import (
 )
 
 type Env struct {
+	hyp   bool          // the clause is being assumed (not proved): seqEq registers a quantified hypothesis
+	lazy  bool          // inside a lazily instantiated hypothesis
 	vars  map[int]Value // placeholder bindings: results then binders
 	u     *Unit
 	st    *State
@@ -626,7 +628,29 @@ func (env *Env) seqEq(cl *Clause, ea, eb ast.Expr) *Term {
 	if et == nil {
 		return Eq(la, lb)
 	}
-	// as a goal the element index is a skolem; as a hypothesis the caller wraps seqEq in forall itself
+	if env.hyp {
+		if env.lazy {
+			specFail("seqEq inside a quantified hypothesis")
+		}
+		// assumed: P stands for the equality; its element-wise part becomes a lazily instantiated hypothesis
+		p := Fresh("seqeq", SortBool)
+		st.assume(Implies(p, Eq(la, lb)))
+		snap := st.clone()
+		st.qh = append(st.qh, &QHyp{text: "seqEq", n: 1, sorts: []*Sort{SortInt}, inst: func(ks []*Term) *Term {
+			k := ks[0]
+			u.specMode++
+			x, _ := u.readRegion(snap, ra, IntAdd(oa, k), "", et)
+			y, _ := u.readRegion(snap, rb, IntAdd(ob, k), "", et)
+			u.specMode--
+			eq, ok := u.valueEq(snap, x, y)
+			if !ok {
+				return True
+			}
+			return Implies(p, Implies(And(IntLe(IntK(0), k), IntLt(k, la)), eq))
+		}})
+		return p
+	}
+	// as a goal the element index is a skolem
 	sk := Fresh("sk_seq", SortInt)
 	st.addInst(sk)
 	u.specMode++
@@ -777,6 +801,8 @@ func (env *Env) formula(cl *Clause, asGoal bool) (res *Term) {
 		}
 	}
 	if len(cl.Binders) == 0 {
+		env.hyp = !asGoal
+		defer func() { env.hyp = false }()
 		return env.evalBool(cl)
 	}
 	if cl.Exists {
@@ -816,7 +842,7 @@ func (env *Env) formula(cl *Clause, asGoal bool) (res *Term) {
 	}
 	// hypothesis: instantiate lazily against a snapshot of the current state
 	snap := env.st.clone()
-	senv := &Env{u: env.u, st: snap, fr: env.fr, objs: map[types.Object]Value{}, entry: env.entry, eargs: env.eargs, snap: env.snap, cells: env.cells, ct: env.ct, vars: map[int]Value{}}
+	senv := &Env{u: env.u, st: snap, fr: env.fr, objs: map[types.Object]Value{}, entry: env.entry, eargs: env.eargs, snap: env.snap, cells: env.cells, multi: env.multi, ct: env.ct, vars: map[int]Value{}, hyp: true, lazy: true}
 	for k, v := range env.objs {
 		senv.objs[k] = v
 	}
